@@ -96,7 +96,9 @@ def evalFn (fn k : String) (ps : List Nat) (raw xs : List Nat) : Option String :
     let (r, log) := mapConcat xs (tblH H)
     some s!"{ds (if t == 3 then setOfList r else r)}|{ds log}"
   | "fold", [] =>
-    if !(ro || k == "a") then none else
+    if !(ro || k == "a" || k == "t" || k == "p") then none else
+    -- tuples and mpl lists are folded through the index recursion of `tuple_loop_break` / `for_each_break`
+    if k == "t" || k == "p" then some (toString (tupleLoopBreak xs (fun e st => (Loop.continue_, st * 4 + e + 1)) 0 0)) else
     some (toString (fold xs 0 (fun e st => st * 4 + e + 1)))
   | "foldbrk", [B] =>
     if !ro || B ≥ 8 then none else
@@ -107,7 +109,8 @@ def evalFn (fn k : String) (ps : List Nat) (raw xs : List Nat) : Option String :
     let r := if k == "t" || k == "p" then tupleLoopBreak xs (logged body) 0 ((), []) else loopBreak xs (logged body) ((), [])
     some (ds r.2)
   | "loop", [] =>
-    if !ro then none else
+    if !(ro || k == "a" || k == "t" || k == "p") then none else
+    if k == "t" || k == "p" then some (ds (tupleLoopBreak xs (fun e (log : List Nat) => (Loop.continue_, log ++ [e])) 0 [])) else
     some (ds (loop xs (fun e log => log ++ [e]) []))
   | "allof", [P] =>
     if !ro || P ≥ 8 then none else
@@ -370,7 +373,11 @@ def allPieceTuples : Nat → List (List (List Char))
   | 0 => [[]]
   | n + 1 => (allPieceTuples n).flatMap fun t => pieceChoices.map fun p => t ++ [p]
 
-def joinLine (d : List Char) (pieces : List (List Char)) : String := showStr (joinStrings pieces d)
+def joinLine (d : List Char) (pieces : List (List Char)) : String :=
+  let joined := joinStrings pieces d
+  match d with
+  | [c] => s!"{showStr joined} rt={b01 (splitString joined c == pieces)}"
+  | _ => showStr joined
 
 /-! maps over {0,1,2} -/
 
